@@ -319,8 +319,65 @@ static void* rv_call(int v, void* p, size_t n) {
   return NULL;
 }
 static void* rv_call(int v, void* p, size_t n);
+/* a C++ new-handler for the mi_new_* family (the C build looks it up through this symbol): when armed it lets the OS grant
+   requests again and returns, so that the failed call is retried */
+static int g_nh_calls, g_nh_need = 1;      /* the handler lets the OS grant requests again on its g_nh_need-th call */
+static void nh_fn(void) { if (++g_nh_calls >= g_nh_need) vf_os_plan_clear(); }
+#define g_nh_armed_set(on) (vf_new_handler = (on) ? &nh_fn : NULL)
 static void mode_realloc(void) {
   long idx = 0;
+  /* mi_new_realloc / mi_new_reallocn / mi_new(_n): the first attempt is refused by the OS, the new-handler returns, the retry
+     succeeds: contents preserved, the old block released exactly once (block count of the heap), nothing handed out twice */
+  /* the allocating forms: the handler has to be called twice before memory is available (the retry loop must keep going) */
+  for (int form = 0; form < 4; form++) {
+    long my = idx++;
+    if ((my % g_workers) != g_worker) continue;
+    g_case = my;
+    static const char* fn[] = { "mi_new", "mi_new_n", "mi_new_nothrow", "mi_new_aligned" };
+    CASE_BEGIN("realloc #%ld %s(2 GiB) with a new-handler that makes memory available on its second call", my, fn[form]);
+    VF_INC(nodes); VF_INC(transitions); VF_INC(checks);
+    g_nh_armed_set(1); g_nh_calls = 0; g_nh_need = 2;
+    vf_os.fail_from = vf_os.ncalls; vf_os.fail_kinds = (1u << VF_C_MMAP);
+    size_t big = (size_t)2048 * MI_MiB + 4096;
+    void* q = (form == 0 ? mi_new(big) : form == 1 ? mi_new_n(big / 8, 8) : form == 2 ? mi_new_nothrow(big) : mi_new_aligned(big, 64));
+    g_nh_armed_set(0); g_nh_need = 1; vf_os_plan_clear();
+    if (q == NULL || g_nh_calls != 2) { VIOL("new-handler-loop", "%s returned %p after %d new-handler calls; expected a block after exactly 2 calls (allocate; on failure call the handler; repeat)", fn[form], q, g_nh_calls); return; }
+    if (vf_model_alloc(q, 4096, form == 3 ? 64 : 0, 0, 0, 0, fn[form]) < 0) return;
+    vf_model_remove_ordered(vf_nlive - 1); mi_free(q);
+    vf_err_count = 0;
+    VF_INC(nontrivial);
+  }
+  for (int v = 0; v < 2; v++) for (int k = 0; k < 3; k++) {
+    long my = idx++;
+    if ((my % g_workers) != g_worker) continue;
+    g_case = my;
+    static const size_t olds[] = { 100, 9000, 300000 };
+    CASE_BEGIN("realloc #%ld %s(%zu -> 2 GiB) with a new-handler and a refused first attempt", my, v ? "mi_new_reallocn" : "mi_new_realloc", olds[k]);
+    VF_INC(nodes); VF_INC(transitions); VF_INC(checks);
+    void* p = mi_malloc(olds[k]);
+    if (vf_model_alloc(p, olds[k], 0, 0, 0, 0, "mi_malloc") < 0) return;
+    vf_blk_t old = vf_live[vf_nlive - 1];
+    heap_snapshot(&g_hw1);
+    g_nh_armed_set(1); g_nh_calls = 0;
+    vf_os.fail_from = vf_os.ncalls; vf_os.fail_kinds = (1u << VF_C_MMAP);
+    size_t big = (size_t)2048 * MI_MiB + 4096;
+    uint8_t* q = (uint8_t*)(v ? mi_new_reallocn(p, big / 8, 8) : mi_new_realloc(p, big));
+    g_nh_armed_set(0); vf_os_plan_clear();
+    if (g_nh_calls < 1) { VIOL("new-handler-not-called", "the OS refused the request but the new-handler was not called (%d calls)", g_nh_calls); return; }
+    if (q == NULL) { VIOL("null-result", "returned NULL although the new-handler made memory available"); return; }
+    long bad = vf_pat_check_lim(q, old.wlen, old.seed, old.req);
+    if (bad >= 0) { VIOL("realloc-contents", "after the retry byte %ld of the old contents (%zu bytes) differs: 0x%02x", bad, old.req, q[bad]); return; }
+    vf_model_remove_ordered(vf_nlive - 1);
+    heap_snapshot(&g_hw2);
+    if (g_hw2.n != g_hw1.n) { VIOL("realloc-block-count", "the heap holds %d blocks after the re-allocation, %d before: the old block was not released exactly once", g_hw2.n, g_hw1.n); return; }
+    /* the old block may be handed out again, but only once */
+    void* a = mi_malloc(olds[k]); void* b = mi_malloc(olds[k]);
+    if (a == b || a == (void*)q || b == (void*)q) { VIOL("double-handout", "after the re-allocation two allocations returned %p and %p (result block %p)", a, b, (void*)q); return; }
+    mi_free(a); mi_free(b); mi_free(q);
+    if (vf_err_count > 0 && vf_err_last != ENOMEM) { VIOL("error-callback", "mimalloc reported error %d", vf_err_last); return; }   /* (ENOMEM: the refused first attempt) */
+    vf_err_count = 0;
+    VF_INC(nontrivial);
+  }
   /* a NULL input behaves as an allocation and a zero size yields a valid minimal block: every variant incl. the aligned ones */
   static const size_t pn[] = { 0, 1, 100, 100000 };
   for (int v = 0; v < 18; v++) for (int k = 0; k < 4; k++) for (int from_null = 0; from_null < 2; from_null++) {
@@ -702,6 +759,14 @@ static void mode_badargs(void) {
       if (expect_clean_failure(r, live, 0, cs_names[e]) != 0) return;
       if (e == 4 && rc != ENOMEM) { VIOL("errno-missing", "mi_reallocarray failed with errno=%d, expected ENOMEM", rc); return; }
       if (e == 5 && rc == 0) { VIOL("errno-missing", "mi_reallocarr reported success"); return; }
+      if (cs_is_realloc(e)) {
+        /* the same malformed request on a NULL block ("grow from nothing"), with errno clear on entry */
+        int rc2 = 0; void* r2 = cs_call(e, NULL, c, s, &rc2);
+        VF_INC(checks);
+        if (r2 != NULL && r2 != (void*)-1) { VIOL("bad-request-succeeded", "%s(NULL, %zu, %zu) returned %p", cs_names[e], c, s, r2); return; }
+        if (e == 4 && rc2 != ENOMEM) { VIOL("errno-missing", "mi_reallocarray(NULL, ..) failed with errno=%d, expected ENOMEM", rc2); return; }
+        if (e == 5 && rc2 == 0) { VIOL("errno-missing", "mi_reallocarr on a NULL block reported success for a malformed request"); return; }
+      }
       if (live) { if (release_block(vf_nlive - 1, 0) != 0) return; }
       vf_err_count = 0;
       if (my == g_stop_at) return;
@@ -894,8 +959,33 @@ static void hd_case(int kind, size_t n) {
   if (vf_err_count < 1 || vf_err_last != EFAULT) { VIOL("overflow-unreported", "a foreign byte at offset %zu of a block of requested size %zu was not reported when the block was freed by %s (%d reports, last code %d), expected EFAULT", at, n, kind == 1 ? "another thread" : "its own thread", vf_err_count, vf_err_last); return; }
   VF_INC(nontrivial);
 }
+/* every detection is reported, however many came before it in the same process (mimalloc stops *printing* after max_errors) */
+static void hd_many(void) {
+  mi_option_enable(mi_option_show_errors);
+  void* keep[64];
+  for (int k = 0; k < 48; k++) {
+    keep[k] = mi_malloc(40); uint8_t* p = (uint8_t*)mi_malloc(40);
+    if (!keep[k] || !p || _mi_ptr_page(keep[k]) != _mi_ptr_page(p)) continue;
+    vf_err_count = 0;
+    if (k % 2 == 0) { mi_free(p); mi_free(p); if (vf_err_count != 1 || vf_err_last != EAGAIN) { VIOL("double-free-unreported", "double free number %d of this process raised %d reports (last code %d), expected exactly one EAGAIN", k / 2 + 1, vf_err_count, vf_err_last); return; } }
+    else { p[40] = 0x41; mi_free(p); if (vf_err_count < 1 || vf_err_last != EFAULT) { VIOL("overflow-unreported", "overflow number %d of this process (after %d other detected errors) raised %d reports (last code %d), expected EFAULT", k / 2 + 1, k, vf_err_count, vf_err_last); return; } }
+    VF_INC(checks);
+  }
+  VF_INC(nontrivial);
+}
 static void mode_hardened(void) {
   long idx = 0;
+#if !MI_DEBUG
+  { long my = idx++;
+    if ((my % g_workers) == g_worker) {
+      g_case = my; CASE_BEGIN("hardened #%ld 48 detections in one process", my); VF_INC(nodes);
+      pid_t pid = fork(); if (pid == 0) { vf_nlive = 0; hd_many(); _exit(0); }
+      int st = 0; waitpid(pid, &st, 0);
+      if (!(WIFEXITED(st) && WEXITSTATUS(st) == 0) && vf_sh->nviol == 0) { VIOL("crash", "case process ended with status 0x%x", st); return; }
+      if (vf_sh->nviol > 0) return;
+    }
+  }
+#endif
   for (int si = 0; si < g_nsizes + 130; si++) {
     size_t n = (si < 130 ? (size_t)si + 1 : g_sizes[si - 130]);     /* every size 1..130, then the boundary grid */
     if (n == 0 || n > 2 * MI_MiB) continue;
